@@ -420,11 +420,27 @@ def c_sro(ctx, e):
     if len(loops) != 1 or not isinstance(loops[0], pyast.While):
         raise Unsupported(f'drift: {fn} is expected to contain exactly one while-loop (invariant#1)')
     loop = loops[0]
+    # the names of the loop state are read off the code (a renamed local is not a reason to stop): the scope being
+    # stripped is the object whose `.items` the loop tests, the accumulator is the list the body appends to, the searched
+    # name is the first parameter
+    try:
+        v_cur = loop.test.value.id if isinstance(loop.test, pyast.Attribute) else None
+        apps = [n.func.value.id for n in pyast.walk(loop) if isinstance(n, pyast.Call) and
+                isinstance(n.func, pyast.Attribute) and n.func.attr == 'append' and isinstance(n.func.value, pyast.Name)]
+        v_acc = apps[0] if len(set(apps)) == 1 else None
+        v_name = f.node.args.args[0].arg
+    except (AttributeError, IndexError):
+        v_cur = v_acc = v_name = None
+    if not (v_cur and v_acc and v_name):
+        raise Unsupported(f'drift: {fn}: the while-loop is expected to test <scope>.items and to append to one list')
 
     def handler(interp, node, env, path):
-        cur = env.lookup('current_scope')
-        result = env.lookup('result')
-        name = env.lookup('searchable')
+        try:
+            cur = env.lookup(v_cur)
+            result = env.lookup(v_acc)
+            name = env.lookup(v_name)
+        except KeyError as ke:
+            raise Unsupported(f'drift: {fn}: loop state variable {ke} not found')
         if not (isinstance(cur, ObjV) and isinstance(result, SeqV)):
             raise FrameViolation('pop on the caller\'s scope', interp.call_stack) if isinstance(cur, DtV) else \
                 Unsupported('drift: scope_resolution_order: unexpected loop state')
@@ -456,8 +472,8 @@ def c_sro(ctx, e):
 
         def body(p):
             env_c = copy.deepcopy(env)
-            c2 = env_c.lookup('current_scope')
-            r2 = env_c.lookup('result')
+            c2 = env_c.lookup(v_cur)
+            r2 = env_c.lookup(v_acc)
             c2.fields['items'] = SeqV(interp.seq_of_base(z3.SubSeq(T0, z3.IntVal(0), m), TypeDesc('str'), p))
             r2.term = inv_result
             g = interp.truthy(interp.eval(node.test, env_c, p), p)
